@@ -1151,25 +1151,49 @@ class SymDict(dict):
                 return None, concretize_unique(key, "dict key")
             except Unsupported:
                 return key, None
+        if isinstance(key, tuple) and any(isinstance(x, SymInt) for x in key):
+            # a tuple with symbolic components (e.g. (path, size, mtime)): pin what is unique, keep the rest symbolic
+            parts = []
+            symbolic = False
+            for x in key:
+                if isinstance(x, SymInt):
+                    try:
+                        x = concretize_unique(x, "dict key")
+                    except Unsupported:
+                        symbolic = True
+                parts.append(x)
+            return (tuple(parts), None) if symbolic else (None, tuple(parts))
         return None, key
+
+    @staticmethod
+    def _keq(a, b):
+        if isinstance(a, tuple) or isinstance(b, tuple):
+            if not (isinstance(a, tuple) and isinstance(b, tuple)) or len(a) != len(b):
+                return False
+            return all(SymDict._keq(x, y) for x, y in zip(a, b))
+        if isinstance(a, SymInt) or isinstance(b, SymInt):
+            if not isinstance(a, (int, SymInt)) or not isinstance(b, (int, SymInt)) or isinstance(a, bool) or isinstance(b, bool):
+                return False
+            return tb(a == b)
+        return a == b
 
     def _match(self, key):
         """('sym', index) / ('plain', key) / None for the entry equal to key."""
         skey, ckey = self._symbolic(key)
         if skey is None:
-            if isinstance(ckey, int) and not isinstance(ckey, bool):
+            if (isinstance(ckey, int) and not isinstance(ckey, bool)) or isinstance(ckey, tuple):
                 for i, (k, _) in enumerate(self._sym):
-                    if tb(k == ckey):
+                    if self._keq(k, ckey):
                         return ("sym", i)
             try:
                 return ("plain", ckey) if dict.__contains__(self, ckey) else None
             except TypeError:
                 raise
         for i, (k, _) in enumerate(self._sym):
-            if k is skey or tb(k == skey):
+            if k is skey or self._keq(k, skey):
                 return ("sym", i)
         for k in list(dict.keys(self)):
-            if isinstance(k, int) and not isinstance(k, bool) and tb(skey == k):
+            if ((isinstance(k, int) and not isinstance(k, bool)) or isinstance(k, tuple)) and self._keq(skey, k):
                 return ("plain", k)
         return None
 
